@@ -105,6 +105,7 @@ func init() {
 			"GJS.Props.C15.accOn_iff_spec", "GJS.Props.C15.intAccepts_on", "GJS.Props.C15.intAccepts_off", "GJS.Props.C15.same_accepts",
 			"GJS.Props.C15.type_fits", "GJS.Props.C15.KF_uint64_wider",
 		})
+		factsOf(c, "intLimits", "minIntBookkeeping", "nbComparisons")
 		oracleFails := 0
 		vals := interestingInts()
 		// ---- function level ----
@@ -347,6 +348,7 @@ func init() {
 			}
 		}
 		breaks(c, res, nil, oracleFails > 0)
+		c.FactsVerdict(oracleFails > 0)
 		knownProgramFindings(c)
 		knownPairFindings(c)
 	})
